@@ -34,8 +34,8 @@ CHECKS = {
         'technique': 'wiring checks: argument/field provenance of the timer set-up calls, must-reach on the registration success path, select-arm addressing, typestate of the notifier slot (assignment only when empty or after take)',
         'level': ('Decides only the wiring that is necessary for the keep-alive property: token echoed, waker armed on every '
                   'registration with ping_timeout, every PING arms a pong_timeout deadline reporting to this session, expiry ends the '
-                  'session, PONG fires the notifier, and a pending deadline is not silently cancelled (violated on the pinned tree: '
-                  'known finding). Timing bounds ("no later than", "never while answering") are NOT decided.'),
+                  'session, PONG fires the notifier, and a pending deadline is not silently cancelled (the pinned tree violated this; '
+                  'repaired by fix cd06724). Timing bounds ("no later than", "never while answering") are NOT decided.'),
         'note': TRUST + ' Timing and scheduler fairness are runtime quantities (declined).',
     },
     'C13': {
@@ -44,22 +44,22 @@ CHECKS = {
                   '(421/461/472/501/696/417/ERROR), agreement of all command tables, 461 naming its own verb, validation before '
                   'execution with the right validator per field, CR LF encoder constants and single socket writer, colon-introduced '
                   'trailing free text in every relay/reply template, the serialiser\'s colon condition, and the delimiter idiom of the '
-                  'tokeniser (pinned tree: bare-colon split, known finding).'),
+                  'tokeniser (the pinned tree split at a bare colon; repaired by fix e9ef753).'),
         'note': TRUST + ' The tokeniser\'s agreement with the grammar over ALL strings (blank runs, tabs, multi-byte text) is a runtime-value property and is not decided.',
     },
     'C05': {
         'technique': 'panic-obligation discharge over the whole non-start-up program: site census from the typed tree (cross-checked against the MIR panic-edge census), each site discharged by path-condition entailment, re-located parser/validator facts, invariants I1-I8 or a term-keyed justified table with structural rechecks; precondition lifting to callers with a kill rule; await census under lexical lock regions',
         'level': ('Decides that every unwrap/expect, index, str slice, integer operation, explicit panic and panicking library call '
                   'reachable from session code is discharged, that no socket/timer await happens under the state lock, that handler '
-                  'errors do not end the serving loop and output is flushed after every event. Undischarged sites of the pinned tree '
+                  'errors do not end the serving loop and output is flushed after every event. The undischarged sites of the pinned tree '
                   '(KICK tail, repeated KICK victim, match_wildcard arithmetic/slicing, operators_count decrements, the I1-dependent '
-                  'unwraps) are genuine defects and listed as known findings.'),
+                  'unwraps) were genuine defects; each is repaired by a fix: commit and recorded under `fixed` in known_findings.json.'),
         'note': TRUST + ' Assumes a sane system clock; detached timer/lookup tasks are observations; resource exhaustion and panics inside dependencies are not decided. Thorough tier repeats the analysis in all four build configurations.',
     },
     'C14': {
         'technique': 'panic-obligation discharge restricted to the matcher/normaliser, structural loop-progress witnesses, provenance of stored/announced masks, template check of the three normalisation cases, argument-role census of match_wildcard calls',
-        'level': ('Decides the structural necessary conditions only: the comparison cannot abort (violated on the pinned tree: known '
-                  'findings), its loops make progress, list masks are normalised before store/announce/compare with the three '
+        'level': ('Decides the structural necessary conditions only: the comparison cannot abort (violated on the pinned tree; repaired '
+                  'by fix 53e0ac2), its loops make progress, list masks are normalised before store/announce/compare with the three '
                   'documented completions, and every call site passes (mask, text). That the function implements glob semantics for '
                   'every pair of strings is NOT decided by this technique.'),
         'note': TRUST + ' Glob semantics over all strings is a runtime-value property (declined, see DESIGN.md C14).',
@@ -67,7 +67,7 @@ CHECKS = {
     'C19': {
         'technique': 'coupling analysis: finite enumeration of abstract paths (truth assignments of the atoms in the writers\' path conditions + pre-state flags) comparing counter deltas with the change of the counted predicate; field provenance for LUSERS/ISON/USERHOST; acquire/release pairing for connection slots',
         'level': ('Decides for every abstract path of every writer that operators_count / invisible_users_count / the WALLOPS set '
-                  'move exactly with the flags they count (three pinned-tree defects reported as known findings), that no other '
+                  'move exactly with the flags they count (three pinned-tree defects, repaired by fixes 3dcbe6b and 0a7a464), that no other '
                   'function writes them, that max_users_count is the high-water mark, that each LUSERS/ISON/USERHOST field is the '
                   'stated term, and that connection slots are taken once, compared as previous < max, returned on refusal and '
                   'released exactly once by Drop of the only-here-constructed ConnState.'),
@@ -101,24 +101,25 @@ CHECKS = {
         'technique': 'must-pass-through over the connection task (event order + exits census), must-exist checks for quit.store per termination cause, typed container census with frozen classification, removal-site census over the inlined teardown, condition equivalence for channel deletion',
         'level': ('Decides that every path of the connection task reaches teardown, that each termination cause sets the quit flag, '
                   'that every nick-keyed live container (from the struct definitions; new ones must be classified) is cleaned with '
-                  'the departing nick, that exactly one WHOWAS record is kept, that channels vanish iff empty and not preconfigured, '
+                  'the departing nick under no condition other than presence (and the member\'s own rank flag for a rank set), that exactly one WHOWAS record is kept, that channels vanish iff empty and not preconfigured, '
                   'and that teardown touches nothing keyed by another nick or a channel the user was not on.'),
-        'note': TRUST + ' Depends on C02 R2.6 (the nick must be the connection\'s own): violated on the pinned tree and reported there. Counters: C19.',
+        'note': TRUST + ' Depends on C02 R2.6 (the nick must be the connection\'s own; repaired on the pinned tree by fix 05cb942). Counters: C19.',
     },
     'C02': {
         'technique': 'who-may-write census on the user registry (typed receiver), check-and-insert under one write-guard region (lexical guard regions + query events), typestate entailment authenticated => registered, key-provenance of every User mutation',
         'level': ('Decides that the registry is written only by add_user/remove_user/process_nick, that each insert is dominated by '
                   'a "nick free" check made under the same write guard, that every handler mutates only users[own nick] (frozen '
-                  'foreign-target table for INVITE/KILL/DIE), and reports as known findings the three places where a connection '
-                  'acts on a nick it never registered (433 path leaves authenticated set; teardown; dns arm in the dns_lookup build).'),
+                  'foreign-target table for INVITE/KILL/DIE), that the connection\'s nick setter stores its argument verbatim, and that no '
+                  'connection acts on a nick it never registered (the three such places of the pinned tree - 433 path, teardown, dns arm '
+                  'of the dns_lookup build - are repaired by fixes f454dd9, 05cb942, bb5c615).'),
         'note': TRUST + ' Thorough tier repeats the analysis in the tls_rustls, tls_openssl and dns_lookup build configurations.',
     },
     'C12': {
         'technique': 'two-world emission equivalence: reply sites with path conditions; reachability (satisfiability) of each site under the hidden-object world vs the absent-object world',
         'level': ('Decides for every LIST/NAMES/WHO/WHOIS query form that the reply kinds reachable for a secret channel (requester '
                   'not a member) equal those for a non-existent channel, and that no per-user reply or name entry is reachable for '
-                  'an invisible user sharing no channel with the requester. The two pinned-tree leaks (WHO #secret rows, NAMES '
-                  '#secret vs absent 366) are reported as known findings.'),
+                  'an invisible user sharing no channel with the requester. Of the two pinned-tree leaks, WHO #secret rows is repaired '
+                  '(fix 03836f1); NAMES #secret (nothing) vs NAMES #absent (366) is a known finding.'),
         'note': TRUST + ' Side channels outside the four commands (PRIVMSG/MODE/TOPIC numerics, timing) are not decided.',
     },
     'C11': {
@@ -130,11 +131,12 @@ CHECKS = {
         'note': TRUST + ' wallops_users == users with +w is the coupling result of C19.',
     },
     'C08': {
-        'technique': 'effect census of process_mode_channel keyed by mode letter; guard entailment per letter; effect/announcement pairing on the same path; writer/enforcer/renderer field agreement',
+        'technique': 'effect census of process_mode_channel keyed by mode letter; guard entailment per letter; effect/announcement pairing on the same path; parameter-cursor agreement between handler and validator per letter and sign; writer/enforcer/renderer field agreement',
         'level': ('Decides for every mode string that each channel-mode effect is guarded by the rank the statement assigns to '
                   'its letter, applies only to members (rank letters), is tied to its own field and sign, is appended to the '
                   'announcement with its stored parameter, that the announcement reaches all members, that missing privilege '
-                  'yields 482 / non-member 442, and that each written field is read by the enforcing handler and the MODE query.'),
+                  'yields 482 / non-member 442, that a parameter is consumed exactly where the validator counted one unless the actor '
+                  'holds no privilege at all (no shifted parameters), and that each written field is read by the enforcing handler and the MODE query.'),
         'note': TRUST + ' Enforcement semantics of each field are decided in C07/C09/C10/C12.',
     },
     'C09': {
@@ -142,14 +144,14 @@ CHECKS = {
         'level': ('Decides that KICK selects exactly the victims the rank rules allow and removes/announces exactly those, that '
                   'TOPIC is written/cleared/announced iff member and (not +t or half-op+), that INVITE records and notifies '
                   'exactly the invitee under the stated condition, each refusal numeric under exactly its condition, and that '
-                  'the rank predicates implement the lattice. Reports the two KICK robustness defects as known findings.'),
+                  'the rank predicates implement the lattice. The two KICK robustness defects of the pinned tree are repaired (fixes 5b4a0cc, 8b18274).'),
         'note': TRUST + ' Consumption of the invitation by JOIN is decided in C07.',
     },
     'C01': {
         'technique': 'send-site census with receiver/source/payload provenance terms, guard entailment (sender skipped, prefix bit matches rank set), pairwise exclusivity of fan-outs, table agreement',
         'level': ('Decides the fan-out shape of PRIVMSG/NOTICE for every input: who can receive (member map / matching rank '
                   'set / addressed nick only), sender skipped, set-typed target loop, at most one copy per receiver per '
-                  'target (violated on the pinned tree: known finding), attribution and payload provenance, single '
+                  'target (violated on the pinned tree for multi-prefix targets; repaired by fix 4200c72), attribution and payload provenance, single '
                   'producer/consumer discipline of user queues, prefix/bit/set/flag table agreement.'),
         'note': TRUST + ' Membership truth of Channel.users is C04\'s structural result; delivery order and sockets are not decided.',
     },
